@@ -73,7 +73,7 @@ def findRepCount (rmax : Nat) : Nat :=
   rmax
 
 def findRepDelay (i base : Nat) : Nat :=
-  ((2 * i) * base)
+  ((2 ^ i) * base)
 
 def subscribeSleep (refresh : Nat) : Nat :=
   refresh
